@@ -1913,8 +1913,20 @@ def mon_c17(im0, p):
             snap = None
             if isinstance(cache, dict):
                 snap = {k: _tree_snapshot(v) for k, v in cache.items()}
-            ga = _do_call(ima, host, call, mapsa)
-            gb = _do_call(imb, host, call, mapsb)
+            def _guard(im_, maps_):
+                # running out of stack is an outcome like any other here: a cache that makes a long text fail that way is not transparent
+                try:
+                    return _do_call(im_, host, call, maps_)
+                except RecursionError:
+                    return 'err RecursionError'
+            lim = sys.getrecursionlimit()
+            if p.get('default_stack'):
+                sys.setrecursionlimit(1000)      # the interpreter's default, not the harness's generous limit
+            try:
+                ga = _guard(ima, mapsa)
+                gb = _guard(imb, mapsb)
+            finally:
+                sys.setrecursionlimit(lim)
             if ga != gb:
                 fails.append({'signature': 'cache-not-transparent:' + call[0], 'what': f'call #{i} {call[:2]!r}: cached {ga[:160]!r}, uncached {gb[:160]!r}', 'input': p})
                 break
